@@ -93,7 +93,7 @@ func ekuOK(d desc, usages []gx509.ExtKeyUsage) bool {
 			return true
 		}
 	}
-	if len(d.eku) == 0 {
+	if len(d.eku) == 0 && !d.unkEKU {
 		return true
 	}
 	for _, e := range d.eku {
@@ -106,6 +106,31 @@ func ekuOK(d desc, usages []gx509.ExtKeyUsage) bool {
 			if e == u {
 				return true
 			}
+		}
+	}
+	return false
+}
+
+// sgcAmbiguous: serverAuth is requested and the certificate lists only a "server gated crypto"
+// usage for it. Go's verifier (and this fork) historically accept that as serverAuth; RFC 5280 read
+// literally does not. The statement does not settle it, so the verdict is not judged either way.
+func sgcAmbiguous(d desc, usages []gx509.ExtKeyUsage) bool {
+	if len(usages) == 0 {
+		usages = []gx509.ExtKeyUsage{gx509.ExtKeyUsageServerAuth}
+	}
+	if ekuOK(d, usages) {
+		return false
+	}
+	srv := false
+	for _, u := range usages {
+		srv = srv || u == gx509.ExtKeyUsageServerAuth
+	}
+	if !srv {
+		return false
+	}
+	for _, e := range d.eku {
+		if e == gx509.ExtKeyUsageMicrosoftServerGatedCrypto || e == gx509.ExtKeyUsageNetscapeServerGatedCrypto {
+			return true
 		}
 	}
 	return false
